@@ -385,6 +385,34 @@ func genValid(rng *rand.Rand, family string, G float64, U int64, maxv int) (res 
 		rmax = 1 + rng.Float64()*(G/2-1.5)
 		cx, cy = rmax+0.25+rng.Float64()*(G-2*rmax-0.5), rmax+0.25+rng.Float64()*(G-2*rmax-0.5)
 		shell = star(rng, cx, cy, rmax, nv, U, true)
+	case "thinpath":
+		// a path of two or three short segments, thickened by a fraction of a pixel: strips and legs that collapse to lines on most levels,
+		// and enclose a pixel triangle on some (which ones depends on how the two sides meet the pixel borders)
+		k := 2 + rng.Intn(2)
+		x, y := (2+rng.Float64()*(G-4))*float64(U), (2+rng.Float64()*(G-4))*float64(U)
+		var fwd, back []ipt
+		fwd = append(fwd, ipt{int64(x), int64(y)})
+		for i := 0; i < k; i++ {
+			a := rng.Float64() * 2 * math.Pi
+			d := (0.8 + rng.Float64()*1.6) * float64(U)
+			x, y = x+d*math.Cos(a), y+d*math.Sin(a)
+			fwd = append(fwd, ipt{int64(x), int64(y)})
+		}
+		th := 1 + rng.Int63n(max64(1, U/3))
+		for i := len(fwd) - 1; i >= 1; i-- {
+			back = append(back, ipt{fwd[i].x + rng.Int63n(2*th+1) - th, fwd[i].y + 1 + rng.Int63n(th)})
+		}
+		shell = append(fwd, back...)
+		if area2(shell).Sign() < 0 {
+			reverseRing(shell)
+		}
+	case "tiny":
+		// a few vertices within two or three pixels of the deepest level, spiky: on that level it mostly collapses to points and lines,
+		// on shallower ones (requested together) too, but not always on the same ones
+		nv := 3 + rng.Intn(4)
+		rmax = 0.4 + rng.Float64()*1.4
+		cx, cy = 2+rng.Float64()*(G-4), 2+rng.Float64()*(G-4)
+		shell = star(rng, cx, cy, rmax, nv, U, true)
 	case "comb":
 		shell = comb(rng, G, U)
 	case "sliver":
@@ -631,7 +659,7 @@ func pickWindow(rng *rand.Rand, ws []window) window {
 	return ws[0]
 }
 
-var validFamilies = []string{"star", "star", "holes", "holes", "comb", "sliver", "pinched", "rect", "chole", "edgehole", "dblc"}
+var validFamilies = []string{"star", "star", "holes", "holes", "comb", "sliver", "pinched", "rect", "chole", "edgehole", "dblc", "tiny", "thinpath"}
 
 // genCase: one snapping case. valid=true: a valid polygon; otherwise arbitrary vertex sequences.
 func genCase(rng *rand.Rand, w window, valid bool, maxv int) *snapCase {
@@ -668,7 +696,7 @@ func genCase(rng *rand.Rand, w window, valid bool, maxv int) *snapCase {
 	}
 	c := &snapCase{gs: w.gs, tag: fam, skipModel: !valid && w.gs.levelDiff != 4}
 	c.tmids = []int{w.maxID}
-	if w.maxID > w.minID && rng.Intn(2) == 0 {
+	if w.maxID > w.minID && (rng.Intn(2) == 0 || fam == "tiny" || fam == "thinpath") {
 		// one or two shallower ids as well
 		for id := w.minID; id < w.maxID; id++ {
 			if rng.Intn(2) == 0 {
